@@ -537,6 +537,17 @@ def _limit(vals, v):
     return [{"source": prog, "args": ["--max-stack", str(m)], "oracle": {"oracle": "stdout_equals", "value": "20\n"}} for m in limits]
 
 
+@adapter("span_len")
+def _span_len(vals, v):
+    """probe: a binary expression whose left operand is a string literal of 2^25 - 3 .. 2^25 + 1 bytes (so the node's
+    span length crosses the inline-encoding boundary) must evaluate without crashing"""
+    cases = []
+    for n in ((1 << 25) - 3, (1 << 25) - 2, (1 << 25) - 1, (1 << 25), (1 << 26) - 3):
+        src = 'std.length("' + "a" * n + '" + "b")'
+        cases.append({"source": src, "oracle": {"oracle": "stdout_equals", "value": "%d\n" % (n + 1)}})
+    return cases
+
+
 @adapter("crop")
 def _crop(vals, v):
     """every small crop size (and the counterexample's, clipped) on a run-time error with a 12-frame trace"""
